@@ -109,9 +109,9 @@ void reb_calculate_acceleration(struct reb_simulation* r){
                         particles[i].ay    += prefact*Qjy;
                         particles[i].az    += prefact*Qjz;
                     }
-                    if (i!=j && (i!=0 || j!=1)){
+                    if (i!=j && (i!=0 || j!=1) && (i<_N_active || j<_N_active)){
                         ////////////////
-                        // Direct Term
+                        // Direct Term (test particles do not interact with each other)
                         // Note: ignoring i==0 && j==1 term here and above as they cancel 
                         const double dx = particles[i].x - particles[j].x;
                         const double dy = particles[i].y - particles[j].y;
